@@ -7,11 +7,17 @@ open MdVerif.C05
 #print axioms C05X_tree_distinct_void_node
 #print axioms C05X_root_div
 #print axioms C05X_rootDiv
+#print axioms C05X_strip_never_fails
 #print axioms C05X_doc_spelling_notoc
 #print axioms C05X_admonition_fills_hr
 #print axioms C05X_pass_commutes
 #print axioms C05X_partial
 #print axioms C05X_upto_ampsub
 #print axioms C05X_partial_general
+#print axioms C05X_tree_gnl
+#print axioms C05X_no_amp_substitute
+#print axioms C05X_full
+#print axioms C05X_full_default
+#print axioms C05X_full_general
 #print axioms C05X_nameChar_safe
 #print axioms C05X_attr_list_values_escaped
